@@ -186,6 +186,16 @@ func (e *env) opTransferX(hostile bool) *op {
 	}
 	bal := e.modelBalance(from)
 	amt := e.pickAmount(bal, hostile)
+	if _, isLock := e.lockUntil[from]; isLock && to == from && bal.Sign() > 0 {
+		// a lock account moves funds onto itself; every other time all it holds (seeded change C01-12: the record
+		// written back from a copy that still carries the whole balance)
+		if e.b.Rng.IntN(2) == 0 {
+			amt = new(big.Int).Set(bal)
+		}
+		if amt.Cmp(bal) == 0 {
+			e.b.Hit("lock-account-moves-all-it-holds-onto-itself")
+		}
+	}
 	c := e.pickClass(8)
 	s, cn := e.classSigners(c)
 	o := &op{kind: "transferX", amount: amt, from: from.BytesBE(), to: to.BytesBE(), class: c, className: cn, signers: s, preclass: preclassOf(bal, amt)}
